@@ -54,11 +54,13 @@ FN = ("fun c : (kern_in * list obs_entry * list krule) => let '(i, obs, pairs) :
       "(if list_eqb rule_eqb (model_pairs i) pairs then 1 else 0) + (if spec_C05 i obs then 2 else 0)")
 
 
-def gen(rng, neutral_alt=False):
+def gen(rng, neutral_alt=False, split_gdef=False):
     n = rng.randint(5, 10)
     fam = rng.random()
     if neutral_alt:
         fam = 0.99
+    if split_gdef:
+        fam = 0.1
     if fam < 0.35:     # single script family (Latin + common)
         pool = [r for r in REP if r[0] in ("A", "V", "T", "a", "o", "period", "hyphen", "one", "two", "acutecomb", "A.alt", "V.sc")]
     elif fam < 0.5:    # three left-to-right scripts whose glyphs share groups (look-alikes): script buckets overlap in chains
@@ -72,6 +74,12 @@ def gen(rng, neutral_alt=False):
     items = rng.sample(pool, min(n, len(pool)))
     names = [x[0] for x in items]
     forced = []
+    if split_gdef:
+        # marks kerned against bases (both orders, and a mark pair), the mark class declared by hand in the feature file
+        for extra in ("A", "V", "acutecomb"):
+            if extra not in names:
+                items.append(next(r for r in REP if r[0] == extra)); names.append(extra)
+        forced = [(("A", "acutecomb"), Fr(-55)), (("acutecomb", "V"), Fr(25)), (("acutecomb", "acutecomb"), Fr(10))]
     if neutral_alt:
         # a font of both directions in which a bidi-neutral glyph has an unencoded alternate reachable by substitution only:
         # the alternate is neutral like its base, so pairs with it are kerned on either side, in either direction
@@ -136,6 +144,11 @@ def gen(rng, neutral_alt=False):
                "contours": []} for nm, u in items]
     if fea and "A.alt" in names and "A" in names and rng.random() < 0.5:
         fea += "feature salt { sub A by A.alt; } salt;\n"
+    if split_gdef:
+        # the user's GDEF table comes in TWO blocks: ligature carets first, the glyph classes (with the mark class) second
+        lib.pop("public.openTypeCategories", None)
+        bases = " ".join(nm for nm in names if nm != "acutecomb")
+        fea += "table GDEF {\n    LigatureCaretByPos A 100;\n} GDEF;\ntable GDEF {\n    GlyphClassDef [%s], , [acutecomb], ;\n} GDEF;\n" % bases
     if neutral_alt:
         if not fea:
             fea = "languagesystem DFLT dflt;\nlanguagesystem latn dflt;\nlanguagesystem arab dflt;\n"
@@ -315,7 +328,9 @@ def explore(ctx):
     rng = ctx.subrng("kern")
     cases, meta = [], []
     for i in range(ctx.budget(70, 600)):
-        desc = gen(rng, neutral_alt=(i % 7 == 3))
+        desc = gen(rng, neutral_alt=(i % 7 == 3), split_gdef=(i % 7 == 5))
+        if i % 7 == 5:
+            ctx.klass("hand-written GDEF in two table blocks (classes in the second) + mark kerning")
         if i % 7 == 3:
             ctx.klass("both directions + unencoded alternate of a neutral glyph, kerned")
         lib = rng.choice(["ufoLib2", "defcon"])
